@@ -8,10 +8,10 @@
        (e.g. C05_stacked_is_map_single); here only the shape side (stack lengths must agree); the value side is
        validated over the whole API by tools/props/C20.py.
    (3) PURITY / DETERMINISM — validated only (a Gallina function cannot mutate its argument); no theorem. *)
-From Coq Require Import List Bool Arith String.
-From PW Require Import Result.
-From PW.model Require Import M_shape.
-From PW.proofs Require Import P_shape P_shape_tables.
+From Coq Require Import List Bool Arith String Reals Lra Lia.
+From PW Require Import Num NumR Vec NpList Result.
+From PW.model Require Import M_shape M_inflection M_array.
+From PW.proofs Require Import P_shape P_shape_tables P_inflection.
 From PW.corr Require Import C20_expected.
 Import ListNotations.
 Local Open Scope string_scope.
@@ -53,7 +53,8 @@ Theorem C20_first_failing_check_decides : forall cs1 c cs2 args b b1 e,
   run_contract_from (cs1 ++ c :: cs2)%list args b = Raise e.
 Proof. exact run_contract_first_failure. Qed.
 
-(* a failing check yields exactly ValueError (arguments of the Python kinds the checks are written for) *)
+(* a failing check yields exactly ValueError (arguments of the Python kinds the checks are written for; a
+   check_shape_any with exactly ONE shape is excluded by kind_ok: the code raises IndexError there) *)
 Theorem C20_failing_check_raises_ValueError : forall c args b e,
   kind_ok args c = true -> run_check c args b = Raise e -> e = ValueError.
 Proof. exact failing_check_raises_ValueError. Qed.
@@ -77,19 +78,46 @@ Theorem C20_mismatched_length_rejected : forall b p s i x k n,
   match_pattern b p s = false.
 Proof. exact mismatched_length_rejected. Qed.
 
-(* ---- the golden contracts (finite tables; the domain is the committed table `documented_args`) ---------------- *)
-(* every array argument that a public callable documents is constrained by a shape check of the callable or of
-   the callee it hands the argument to; `not_modelled` (cv2_rodrigues, which dispatches on r.size) is excluded *)
-Theorem C20_documented_contracts_strict :
+(* ---- the golden contracts (finite tables; the domains are the committed tables of corr/C20_expected.v) --------- *)
+(* every array argument that a public callable documents REACHES a shape check of the callable or of the callee it
+   hands the argument to.  This says "is mentioned by a constraining check", not "the accepted shapes are the
+   documented ones" -- that is the next theorem.  `not_modelled` (cv2_rodrigues dispatches on r.size; world_to_view's
+   `up` is rejected by vg.cross / np.array, not by a shape check) is excluded. *)
+Theorem C20_documented_arguments_are_checked :
   forallb (fun na : string * list string =>
              mem (fst na) not_modelled || forallb (covered all_contracts delegation (fst na)) (snd na))
           documented_args = true.
-Proof. exact documented_contracts_strict_b. Qed.
+Proof. exact documented_arguments_are_checked_b. Qed.
 
 Theorem C20_documented_argument_is_checked : forall name args a,
   In (name, args) documented_args -> In a args -> ~ In name not_modelled ->
   covered all_contracts delegation name a = true.
-Proof. exact documented_contracts_strict. Qed.
+Proof. exact documented_argument_is_checked. Qed.
+
+(* STRICTNESS PER CALLABLE, over a finite universe: for every registered array-taking callable (except forms_exempt:
+   the two not-modelled callables and the Rodrigues vector, a known finding) and EVERY joint assignment of the shapes
+   of M_shape.universe (None, a Python number, 22 / 10 / 7 array shapes for <= 3 / 4 / 5 array parameters) to all its
+   array parameters, the effective contract -- own checks, then the delegates' -- accepts iff the shapes are one of the
+   documented single / stacked forms (documented_forms, hand-written from the docstrings; minimum sizes omitted).
+   Beyond the universe this is proved for all k, m for two callables (below) and validated by probes. *)
+Theorem C20_contracts_accept_exactly_documented_forms :
+  forallb (fun nf : string * list form =>
+             mem (fst nf) forms_exempt ||
+             forms_agree all_contracts delegation forms_b0 (fst nf) (names_of (fst nf)) (snd nf))
+          documented_forms = true.
+Proof. exact contracts_accept_exactly_documented_forms_b. Qed.
+
+Theorem C20_contract_accepts_iff_documented_form : forall name fs t,
+  In (name, fs) documented_forms -> ~ In name forms_exempt ->
+  In t (tuples (names_of name) (universe (List.length (names_of name)))) ->
+  accepts_effective all_contracts delegation forms_b0 name (env_of t) = in_forms forms_b0 fs (env_of t).
+Proof. exact contracts_accept_exactly_documented_forms. Qed.
+
+(* no golden contract uses check_shape_any with exactly one shape (its failure path raises IndexError, M_shape.any_fail),
+   so C20_failing_check_raises_ValueError's hypothesis kind_ok is not restrictive on the golden contracts *)
+Theorem C20_no_single_shape_check_shape_any :
+  forallb (fun nc : string * list check => forallb (fun c => negb (single_pattern_any c)) (snd nc)) all_contracts = true.
+Proof. exact no_single_pattern_check_shape_any. Qed.
 
 (* stacked forms: a stack of k items against a stack of m items is accepted iff m = k, for all k, m *)
 Theorem C20_signed_distance_stacks_must_agree : forall k m,
@@ -125,10 +153,100 @@ Example C20_contract_inhabited :
   = Raise ValueError.
 Proof. split; vm_compute; reflexivity. Qed.
 
+(* ==================================================================================================================
+   extra: callables outside the 19 other properties
+   polliwog/polyline/_inflection_points.py (inflection_points, point_of_max_acceleration) and
+   polliwog/polyline/_array.py (find_repeats, find_changes) are anchored in no other property; they are modelled in
+   model/M_inflection.v / M_array.v (np.gradient exactly as NumPy computes it for non-uniform coordinates), tied by
+   traced kernels at n = 4, 5 and by the correspondence kinds CInflection / CMaxAcc / CFind.  Theorems on the
+   real-number instance; the model's domain is strictly increasing run coordinates (no zero spacing), and
+   point_of_max_acceleration is modelled with subdivide_by_length = None.
+   ================================================================================================================== *)
+Local Open Scope R_scope.
+
+(* np.gradient is exact on affine data: the first difference is the slope at every sample ... *)
+Theorem C20_x_gradient_of_affine_is_slope : forall a b xs i,
+  increasing xs (List.length xs) -> (2 <= List.length xs)%nat -> (i < List.length xs)%nat ->
+  nth_error (gradient ROps xs (map (fun x => a * x + b) xs)) i = Some a.
+Proof. exact gradient_affine. Qed.
+
+(* ... and the second difference vanishes everywhere, so EVERY product fd2[i]*fd2[i+1] is 0 <= 0: the reason the
+   docstring warns that `lambda x: 2*x + 1` has almost every point detected *)
+Theorem C20_x_second_difference_of_affine_is_zero : forall a b xs i,
+  increasing xs (List.length xs) -> (2 <= List.length xs)%nat -> (i < List.length xs)%nat ->
+  nth_error (gradient ROps xs (gradient ROps xs (map (fun x => a * x + b) xs))) i = Some 0.
+Proof. exact second_difference_affine. Qed.
+
+(* every returned inflection point is an input row (not the last) whose second-difference product with its
+   successor is <= 0, and the rows come in increasing index order *)
+Theorem C20_x_inflection_points_sound : forall pts rise run idx,
+  inflection_points ROps pts rise run = Ok (Some idx) ->
+  Sorted.StronglySorted lt idx /\
+  forall i, In i idx ->
+    (S i < List.length pts)%nat /\ (exists row, nth_error pts i = Some row) /\
+    at_ ROps (fd2 ROps pts rise run) i * at_ ROps (fd2 ROps pts rise run) (S i) <= 0.
+Proof. exact inflection_points_sound. Qed.
+
+(* the result of point_of_max_acceleration is an input row with a true valid-mask entry (interior, both neighbouring
+   first differences positive) and fd2 maximal among the valid rows *)
+Theorem C20_x_max_acceleration_sound : forall pts rise run i,
+  point_of_max_acceleration ROps pts rise run = Ok (Some (Some i)) ->
+  is_valid pts rise run i /\ (exists row, nth_error pts i = Some row) /\
+  forall j, is_valid pts rise run j ->
+    at_ ROps (fd2 ROps pts rise run) j <= at_ ROps (fd2 ROps pts rise run) i.
+Proof. exact point_of_max_acceleration_sound. Qed.
+
+Theorem C20_x_valid_rows_are_interior : forall pts rise run i, is_valid pts rise run i ->
+  (0 < i)%nat /\ (S i < List.length pts)%nat /\
+  0 < at_ ROps (fd1 ROps pts rise run) (i - 1) /\ 0 < at_ ROps (fd1 ROps pts rise run) (S i).
+Proof. exact valid_inside. Qed.
+
+Theorem C20_x_max_acceleration_none_iff_no_valid_row : forall pts rise run,
+  (2 <= List.length pts)%nat -> increasing_b ROps (coords ROps pts run) = true ->
+  (point_of_max_acceleration ROps pts rise run = Ok (Some None) <-> forall j, ~ is_valid pts rise run j).
+Proof. exact point_of_max_acceleration_none_iff. Qed.
+
+(* find_changes is the pointwise negation of find_repeats (after the first entry, False in both, when not wrapping) *)
+Theorem C20_x_find_changes_is_negation : forall arr : list R,
+  find_changes ROps arr true = map negb (find_repeats ROps arr true) /\
+  tl (find_changes ROps arr false) = map negb (tl (find_repeats ROps arr false)) /\
+  hd_error (find_changes ROps arr false) = Some false /\ hd_error (find_repeats ROps arr false) = Some false.
+Proof. exact find_changes_is_negation. Qed.
+
+Theorem C20_x_find_length_preserved : forall (arr : list R) wrap, (wrap = true \/ arr <> []) ->
+  List.length (find_repeats ROps arr wrap) = List.length arr /\ List.length (find_changes ROps arr wrap) = List.length arr.
+Proof. exact find_length. Qed.
+
+(* KNOWN FINDING: the docstring promises an output of the input's length; the empty array without wrap gives [False] *)
+Theorem C20_x_find_length_preserved_refuted :
+  exists arr : list R, List.length (find_repeats ROps arr false) <> List.length arr.
+Proof. exact find_length_not_preserved_for_empty. Qed.
+
+(* non-vacuity of the `increasing` hypothesis (non-uniform spacing) *)
+Example C20_x_increasing_inhabited : increasing [0; 1; 3] 3.
+Proof.
+  intros i Hi. destruct i as [|[|i]]; [| |exfalso; lia];
+  unfold at_; cbn [nth]; rops; apply Rltb_true; lra.
+Qed.
+
+(* definitional: pins the shape of the model; the content is carried by the traced ties / correspondence *)
+(* fewer than two points: point_of_max_acceleration raises ValueError; inflection_points fails inside np.gradient
+   with IndexError (mirrored, the property text is silent about it) *)
+Theorem C20_x_too_few_points : forall pts rise run, (List.length pts < 2)%nat ->
+  inflection_points ROps pts rise run = Raise IndexError /\
+  point_of_max_acceleration ROps pts rise run = Raise ValueError.
+Proof. exact too_few_points_raise. Qed.
+
+
 Definition C20_all := (C20_match_pattern_spec, C20_check_any_first_match, C20_columnize_spec, C20_run_check_ok_iff,
   C20_run_contract_ok_iff, C20_first_failing_check_decides, C20_failing_check_raises_ValueError,
   C20_off_contract_is_ValueError, C20_extra_axis_rejected, C20_wrong_trailing_dimension_rejected,
-  C20_mismatched_length_rejected, C20_documented_contracts_strict, C20_documented_argument_is_checked,
+  C20_mismatched_length_rejected, C20_documented_arguments_are_checked, C20_documented_argument_is_checked,
+  C20_contracts_accept_exactly_documented_forms, C20_contract_accepts_iff_documented_form, C20_no_single_shape_check_shape_any,
   C20_signed_distance_stacks_must_agree, C20_signed_distance_mismatch_is_ValueError,
-  C20_closest_point_stacks_must_agree, C20_rodrigues_vector_strict_refuted).
+  C20_closest_point_stacks_must_agree, C20_rodrigues_vector_strict_refuted,
+  C20_x_gradient_of_affine_is_slope, C20_x_second_difference_of_affine_is_zero, C20_x_inflection_points_sound,
+  C20_x_max_acceleration_sound, C20_x_valid_rows_are_interior, C20_x_max_acceleration_none_iff_no_valid_row,
+  C20_x_too_few_points, C20_x_find_changes_is_negation, C20_x_find_length_preserved,
+  C20_x_find_length_preserved_refuted).
 Print Assumptions C20_all.
